@@ -820,12 +820,20 @@ class Interp:
             if r_ is not None and r_[0] == 'adt' and r_[1] == 'core::result::Result' and r_[2] == 1 and r_[3] and body_ is not None and not t_['dest']['p']:
                 ev = self.deref_all(r_[3][0].v)
                 dty = body_.local_ty(t_['dest']['l'])
-                if ev is not None and ev[0] == 'adt' and ty_head(dty) == 'core::result::Result':
+                src_ = ev[1] if (ev is not None and ev[0] == 'adt') else None
+                if src_ is None and ev is not None:
+                    # an abstract atom standing for a value of the error type of the operand (`Result<Infallible, Status>`)
+                    al = t_['args'][0].get('pl', {}).get('l') if t_['args'] and t_['args'][0].get('k') in ('copy', 'move') else None
+                    aty = body_.local_ty(al) if al is not None else ''
+                    if ty_head(aty) == 'core::result::Result' and '<' in aty:
+                        ap_ = ty_args_of_tuple('(' + aty[aty.index('<') + 1:-1] + ')')
+                        src_ = ty_head(ap_[-1]) if ap_ else None
+                if src_ and ty_head(dty) == 'core::result::Result':
                     parts_ = ty_args_of_tuple('(' + dty[dty.index('<') + 1:-1] + ')')
                     tgt_ = ty_head(parts_[-1]) if parts_ else ''
-                    if tgt_ and tgt_ != ev[1]:
+                    if tgt_ and tgt_ != src_:
                         for im in self.facts.impls:
-                            if im.get('trait_def') and strip_generics(im['trait_def']) == 'core::convert::From' and ty_head(im['self']) == tgt_ and ('<' + ev[1]) in im['trait'].replace(' ', ''):
+                            if im.get('trait_def') and strip_generics(im['trait_def']) == 'core::convert::From' and ty_head(im['self']) == tgt_ and ('<' + src_) in im['trait'].replace(' ', ''):
                                 for item in im['items']:
                                     fb = self.facts.body(strip_generics(item))
                                     if fb is not None and last_seg(item) == 'from':
